@@ -169,6 +169,18 @@ Theorem rethrow_returns_to_caller :
 Proof. exact Unwind.rethrow_returns_to_caller. Qed.
 Print Assumptions rethrow_returns_to_caller.
 
+(* no reachable step crashes; in particular (Crash NoHandler) no fault is ever raised at, and no
+   exception ever rethrown to, an address that lies in no block of the exception table -- top-level
+   initialiser code included: the VM never gets NULL from exception_tab_search *)
+Theorem every_fault_has_a_handler :
+  forall prog exct metas entry certs,
+    check_all prog exct metas entry certs = true ->
+    forall s ip' len' c,
+      reachable prog exct metas entry s ->
+      step (code prog) (handler exct) (np metas) (is_entry metas) entry s ip' len' <> Crash c.
+Proof. exact Unwind.every_fault_has_a_handler. Qed.
+Print Assumptions every_fault_has_a_handler.
+
 (* UNHANDLED_EXCEPTION is certified only for the top-level code (function 0) ... *)
 Theorem unhandled_only_at_top_level :
   forall prog exct metas entry certs,
@@ -392,3 +404,11 @@ Proof. vm_compute. reflexivity. Qed.
 Example ex_src_unhandled :
   run_program 20 (ex_src [(ExIndexOob, [IExpr (EInt 1)])]) [] = OUnhandled ExDivision [].
 Proof. vm_compute. reflexivity. Qed.
+
+(* a table that leaves the top-level code uncovered is rejected by the checker, and the shape machine
+   crashes (NoHandler) when a fault is raised there *)
+Example ex_uncovered_toplevel :
+  check_all ex_prog ex_exct_bad ex_metas ex_entry ex_certs = false /\
+  run (code ex_prog) (handler ex_exct_bad) (np ex_metas) (is_entry ex_metas) ex_entry init
+      [(1, 0); (2, 5); (3, 5); (4, 6); (5, 6); (99, 5)] = Crash NoHandler.
+Proof. split; [exact ex_bad_rejected|exact ex_bad_no_handler]. Qed.
